@@ -41,7 +41,11 @@ func genDirect(r *sim.Rand, i int, seed uint64) *C05Direct {
 		case "hello":
 			return sim.Pick(r, []string{"host-" + m + ".example", "host-" + m + "\r\nMAIL FROM:<smug-" + m + "@evil.example>", "host-" + m + "\nNOOP", "host " + m + " extra", "host-" + m + "\r", "-" + m})
 		default:
-			return sim.Pick(r, []string{"user-" + m + "@dest.example", "user-" + m + "@dest.example", `"quoted ` + m + `"@dest.example`, "user-" + m + "@dest.example\r\nRSET", "user-" + m + "@dest.example>\r\nRCPT TO:<smug-" + m + "@evil.example", "a b-" + m + "@dest.example", "user-" + m + "@dest.example> SIZE=1 <x", "user-" + m + "\n@dest.example"})
+			return sim.Pick(r, []string{"user-" + m + "@dest.example", "user-" + m + "@dest.example", `"quoted ` + m + `"@dest.example`, "user-" + m + "@dest.example\r\nRSET", "user-" + m + "@dest.example>\r\nRCPT TO:<smug-" + m + "@evil.example", "a b-" + m + "@dest.example", "user-" + m + "@dest.example> SIZE=1 <x", "user-" + m + "\n@dest.example",
+				// several quoted strings: only the first one is the local part, what follows it must be "@domain"
+				`"x-` + m + `"@evil.example> ORCPT=rfc822;<"y"@dest.example`, `"a-` + m + `"@x.example> SIZE=1 <"b"@dest.example`,
+				`"u-` + m + `" "v"@dest.example`, `"q\"-` + m + `"@dest.example`, `"p-` + m + `"@dest.example> RET=FULL ENVID="e"@x`,
+				`"back\\-` + m + `"@dest.example`, `"r-` + m + `"x"y"@dest.example`})
 		}
 	}
 	nops := 3 + r.Intn(8)
